@@ -191,7 +191,8 @@ pub fn run(tier: &str, seed: u64, out: &Path) -> i32 {
     o.direct_evals += jobs.len() as u64;
     o.direct_distinct += distinct.len() as u64;
     // E. the real binary: exit status must be 0 or 1 (covers main.rs / option handling / stdin path)
-    let bin = std::env::var("RUSTFMT_BIN").unwrap_or_else(|_| "/verif/.build/repo-target/debug/rustfmt".into());
+    // <V>/.build/target/debug/rfverif -> <V>/.build/repo-target/debug/rustfmt (built by ./check, `needs_bins`)
+    let bin = std::env::var("RUSTFMT_BIN").unwrap_or_else(|_| std::env::current_exe().ok().and_then(|e| Some(e.parent()?.parent()?.parent()?.join("repo-target/debug/rustfmt").display().to_string())).unwrap_or_else(|| "/verif/.build/repo-target/debug/rustfmt".into()));
     if Path::new(&bin).exists() {
         let n_cli = if thorough { 1500 } else { 250 };
         let mut idx: Vec<usize> = (0..jobs.len()).collect();
